@@ -183,3 +183,112 @@ def oracle_C14(results, metas, st):
             out.append(viol('sum of %d values is off by %.3g units of u*sum|x| (bound %.3g)' %
                             (len(vs), float(abs(s - exact) / (fmt.u * mag)) if mag else 0.0, float(kahan_bound(fmt, len(vs)) / fmt.u)), [c]))
     return out
+
+# ---- helpers on dumps ----------------------------------------------------------------------------
+def find_items(out, head):
+    """all top-level observation items (lists) of a run case whose first element is `head`"""
+    return [x for x in out if isinstance(x, list) and x and x[0] == head] if isinstance(out, list) else []
+
+def chk_results(d):
+    """dump -> list of results; each result = dict(main=[calls,nz,fin,sum,sumsq], dists=[(par, bins)], extra=[...])"""
+    rs = []
+    for r in d[1]:
+        rs.append({'main': r[0], 'dists': r[1], 'extra': r[2:]})
+    return rs
+
+def chk_gens(d):
+    return d[2][1:]
+
+def fnum(tok):
+    v = parse_tok(tok)
+    return v
+
+# ---- C04 ----------------------------------------------------------------------------------------
+def oracle_C04(results, metas, st):
+    out = []
+    by_id = {r['case'][0]: (r, m) for r, m in zip(results, metas)}
+    for r, m in zip(results, metas):
+        if not m.get('mpi'):
+            continue
+        c = r['case']; cx = r['cxx']
+        fmt = FMTS[c[1]]
+        mp = find_items(cx, 'mpi')
+        if not mp:
+            continue
+        mp = mp[0]
+        info = m['info']; P = info['world']; calls = info['calls']
+        ub = [x for x in mp[1:] if isinstance(x, list) and x and x[0] in ('ub', 'exception')]
+        if ub:
+            what = 'a rank waits in a collective that can never complete (hang)' if ub[0][:2] == ['ub', 99] else \
+                   'ranks entered mismatching collectives' if ub[0][:2] == ['ub', 98] else 'a rank failed: %s' % dump(ub[0])
+            out.append(viol('MPI run with %d ranks, calls %s: %s' % (P, calls, what), [c], dump(mp)[:400])); continue
+        ranks = find_items(mp, 'rank')
+        dumps = [find_items(rk, 'dump')[0][1] for rk in ranks]
+        if any(d != dumps[0] for d in dumps[1:]):
+            k = next(i for i, d in enumerate(dumps) if d != dumps[0])
+            out.append(viol('rank %d returns a checkpoint different from rank 0 (world %d, calls %s)' % (k, P, calls), [c])); continue
+        colls = [find_items(rk, 'coll')[0] for rk in ranks]
+        if any(x != colls[0] for x in colls[1:]):
+            out.append(viol('ranks executed different sequences of collectives (world %d, calls %s)' % (P, calls), [c])); continue
+        # serial twin
+        twin = [x for x in by_id.values() if x[1].get('serial_of') == c[0]]
+        if not twin:
+            continue
+        sr = twin[0][0]; scx = sr['cxx']
+        sd = find_items(scx, 'dump')
+        if not sd:
+            continue
+        sd = sd[-1][1]
+        if chk_gens(sd) != chk_gens(dumps[0]):
+            out.append(viol('generators stored by the MPI run %s differ from the serial run %s (world %d, calls %s)' %
+                            (chk_gens(dumps[0]), chk_gens(sd), P, calls), [c, sr['case']])); continue
+        srs = chk_results(sd); mrs = chk_results(dumps[0])
+        if len(srs) != len(mrs):
+            out.append(viol('MPI run performed %d iterations, serial run %d (world %d, calls %s)' % (len(mrs) - 0, len(srs), P, calls), [c, sr['case']])); continue
+        if not info.get('poly'):
+            # table integrands are indexed by the per-rank call counter: values differ legitimately; calls still must agree
+            for k, (a, b) in enumerate(zip(srs, mrs)):
+                if a['main'][0] != b['main'][0]:
+                    out.append(viol('iteration %d reports calls=%d under MPI, %d serially' % (k, b['main'][0], a['main'][0]), [c, sr['case']])); break
+            continue
+        # points: union over ranks vs serial, iteration by iteration while the adaptive state is bit-identical
+        sev = [e for e in (find_items(scx, 'run')[-1:] or [[]])[0] if isinstance(e, list) and e and e[0] == 'events']
+        sev = [e for e in sev[0][1:] if e[0] == 'f'] if sev else []
+        rev = []
+        for rk in ranks:
+            ev = find_items(rk, 'events')
+            rev.append([e for e in ev[0][1:] if e[0] == 'f'] if ev else [])
+        spos = 0; rpos = [0] * P
+        first = 1 if info.get('pre') else 0
+        bad = False
+        for k in range(first, len(srs)):
+            N = calls[k - first] if k - first < len(calls) else 0
+            state_equal = srs[k]['extra'][-1:] == mrs[k]['extra'][-1:] if srs[k]['extra'] else True
+            if srs[k]['extra'] and len(srs[k]['extra']) == 2 and isinstance(srs[k]['extra'][0], list) and len(srs[k]['extra'][0]) == 3:
+                state_equal = srs[k]['extra'][0] == mrs[k]['extra'][0]          # vegas: the grid
+            spts = sev[spos:spos + N]; spos += N
+            mpts = []
+            for rr in range(P):
+                sub = N // P + (1 if rr < N % P else 0)
+                mpts += rev[rr][rpos[rr]:rpos[rr] + sub]; rpos[rr] += sub
+            if state_equal:
+                key = lambda e: dump(e[2:])
+                if sorted(map(key, spts)) != sorted(map(key, mpts)):
+                    out.append(viol('iteration %d: the %d points evaluated across %d ranks are not the %d points of the serial run' %
+                                    (k, len(mpts), P, len(spts)), [c, sr['case']])); bad = True; break
+            a, b = srs[k]['main'], mrs[k]['main']
+            if a[:3] != b[:3] and state_equal:
+                out.append(viol('iteration %d: counters (calls, non-zero, finite) %s under MPI vs %s serially' % (k, b[:3], a[:3]), [c, sr['case']])); bad = True; break
+            sa, sb = fnum(a[3]), fnum(b[3]); qa, qb = fnum(a[4]), fnum(b[4])
+            if state_equal and all(isnum(x) for x in (sa, sb, qa, qb)) and N > 0:
+                from math import isqrt
+                mag2 = N * max(qa, qb)
+                # |sum - sum'| <= (2P + 32) u sqrt(N sumsq)
+                lhs = (sa - sb) ** 2; rhs = ((2 * P + 32) * fmt.u) ** 2 * mag2 + Fraction(2) ** (2 * fmt.emin + 8)
+                if lhs > rhs:
+                    out.append(viol('iteration %d: sum %s under MPI vs %s serially differs by more than reassociation allows' % (k, float(sb), float(sa)), [c, sr['case']])); bad = True; break
+                if abs(qa - qb) > (2 * N + 2 * P + 8) * fmt.u * max(qa, qb) + Fraction(2) ** (fmt.emin + 4):
+                    out.append(viol('iteration %d: sum of squares %s under MPI vs %s serially' % (k, float(qb), float(qa)), [c, sr['case']])); bad = True; break
+            if not state_equal:
+                break
+    return out
